@@ -1,6 +1,7 @@
 import HotstuffModel.Proofs.Reachable
 import HotstuffModel.Proofs.NodeInv6
 import HotstuffModel.Proofs.PrefixLogs
+import HotstuffModel.Proofs.Synchronizer
 /-!
 # C07 — A lagging node fetches missing blocks and converges (PARTIAL: protocol lemmas)
 
@@ -107,6 +108,67 @@ example :
     let s2 := run c s1 [.msg (.propose b1), .syncResume 0, .loopback]
     s1.hist.contains (.syncRequest (some 3) b1.digest) = true ∧ s1.syncPending.length = 1 ∧
     s2.store.length = 2 ∧ s2.syncPending.length = 0 := by
+  decide
+
+/-! ### The timed `Synchronizer` task (`HS.Sync`, `Model/Synchronizer.lean`): request, retry, resume
+
+The node model above treats a retry as an event the environment may fire.  The theorems below are about
+the model of the task itself — its tables WITH timestamps and its timer rule
+`timestamp + sync_retry_delay < now`, which is regenerated from `consensus/src/synchronizer.rs` on every
+run (`Gen.syncRetryDue`) and driven in lock-step with the real task by the engine `syncretry`. -/
+
+/-- (T1) "it requests each missing ancestor": the first child of a missing parent sends exactly one
+request, to that child's author, and the request is stamped with the current time; a second child of
+the same parent, or the same block handed over again, sends nothing. -/
+theorem sync_first_request_to_author_once (delay : Nat) (s : Sync.State) (b p a now : Nat) :
+    (b ∉ s.pending → Sync.hasReq s p = false →
+      (Sync.step delay s (.suspend b p a now)).2 = [.request a p] ∧
+      (⟨p, now⟩ : Sync.Req) ∈ (Sync.step delay s (.suspend b p a now)).1.requests) ∧
+    ((b ∈ s.pending ∨ Sync.hasReq s p = true) → (Sync.step delay s (.suspend b p a now)).2 = []) :=
+  ⟨Sync.suspend_first delay s b p a now, Sync.suspend_silent delay s b p a now⟩
+
+/-- (T2) The timer re-broadcasts exactly the requests older than the retry delay — none earlier,
+none left out — and sends nothing else. -/
+theorem sync_timer_retries_exactly_the_overdue (delay : Nat) (s : Sync.State) (now : Nat) :
+    (∀ p, .broadcast p ∈ (Sync.step delay s (.tick now)).2 ↔
+      ∃ r ∈ s.requests, r.parent = p ∧ r.ts + delay < now) ∧
+    (∀ o ∈ (Sync.step delay s (.tick now)).2, ∃ p, o = .broadcast p) :=
+  ⟨fun p => Sync.tick_out delay s now p, fun o ho => Sync.tick_only_broadcasts delay s now o ho⟩
+
+/-- (T3) "an unanswered request is retried with other peers": a request stamped `ts`, for as long as
+its parent has not been stored — whatever else is suspended, stored or ticked in between — is
+re-broadcast at EVERY tick later than `ts + delay` (the timestamp is never refreshed). -/
+theorem sync_unanswered_request_retried_at_every_due_tick (delay : Nat) (s : Sync.State)
+    (es : List Sync.Event) (r : Sync.Req) (now : Nat)
+    (hr : r ∈ s.requests) (hun : ∀ e ∈ es, e ≠ .stored r.parent) (hdue : r.ts + delay < now) :
+    .broadcast r.parent ∈ (Sync.step delay (Sync.run delay s es).1 (.tick now)).2 :=
+  (Sync.tick_out delay _ now r.parent).2 ⟨r, Sync.request_persists delay s es r hr hun, rfl, hdue⟩
+
+/-- (T4) "processes them": a suspended block goes back to the core only when its own parent is stored;
+then every child waiting for that parent goes back, each once, and nothing of that parent is left —
+no waiter, no pending child, no request, so no later tick repeats the request. -/
+theorem sync_resume_exactly_on_parent (delay : Nat) (es : List Sync.Event) (p : Nat) :
+    let s := (Sync.run delay {} es).1
+    (∀ e b, .loopback b ∈ (Sync.step delay s e).2 → ∃ q, e = .stored q ∧ (⟨b, q⟩ : Sync.Wait) ∈ s.waiting) ∧
+    (∀ b, (⟨b, p⟩ : Sync.Wait) ∈ s.waiting → .loopback b ∈ (Sync.step delay s (.stored p)).2) ∧
+    (Sync.step delay s (.stored p)).2.Nodup ∧
+    (∀ b, .loopback b ∈ (Sync.step delay s (.stored p)).2 → b ∉ (Sync.step delay s (.stored p)).1.pending) ∧
+    (∀ now, .broadcast p ∉ (Sync.step delay (Sync.step delay s (.stored p)).1 (.tick now)).2) := by
+  intro s
+  have hI : Sync.Inv s := Sync.run_inv delay {} es Sync.inv_init
+  exact ⟨fun e b h => Sync.loopback_only_on_stored delay s e b h,
+    fun b h => Sync.stored_resumes_all delay s p b h,
+    Sync.stored_resumes_once delay s p hI,
+    (Sync.stored_clears delay s p hI).2.2,
+    fun now => Sync.no_retry_after_stored delay s p now hI⟩
+
+/-- Non-vacuity (the default configuration: delay 10 s, ticks every 5 s): two children of parent 7,
+one request to the first child's author; silent at the ticks of 5 s and 10 s, re-broadcast at 15 s
+and 20 s; once 7 is stored both children go back and the tick of 25 s is silent. -/
+example :
+    (Sync.run 10000 {} [.suspend 1 7 3 2, .suspend 2 7 4 5, .tick 5000, .tick 10000, .tick 15000,
+      .tick 20000, .stored 7, .tick 25000]).2 =
+      [.request 3 7, .broadcast 7, .broadcast 7, .loopback 1, .loopback 2] := by
   decide
 
 /-- (safety half of "ends up delivering the same committed sequence as the others")  In every
